@@ -84,6 +84,13 @@ def hugeModel (fam : String) (n : Int) (free : Int) : Option String :=
   | "huge-str" => some (outRes (strRepeat free free 2 (i64 n)))
   | "huge-arr" => some (outRes (arrRepeat free free 1 (i64 n)))
   | "huge-rng" => some (outRes (range free free (i64 0) (i64 n)))
+  -- empty operand times a huge count: the request is 0 objects, the result is empty (and must come at once)
+  | "degen-arr-lit" | "degen-arr-slice" | "degen-arr-rng" | "degen-arr-rng5" => some (outRes (arrRepeat free free 0 (i64 n)))
+  | "degen-str" | "degen-str-slice" => some (outRes (strRepeat free free 0 (i64 n)))
+  -- counts whose product with the length wraps: MulLen refuses them
+  | "wrap-arr" => some (outRes (arrRepeat free free 4 (i64 n)))
+  | "wrap-arr2" => some (outRes (arrRepeat free free 2 (i64 n)))
+  | "wrap-str" => some (outRes (strRepeat free free 4 (i64 n)))
   | "huge-cat" =>
     match arrRepeat free free 1 (i64 n) with
     | .ok k => some (outRes (arrConcat free free k k))
@@ -100,7 +107,8 @@ def predict (c : Case) : Option String :=
     match c.need with
     | some need => some (if chainOk c.maxDepth (need + 1) then "ok" else "depth")
     | none => none
-  else if c.fam.startsWith "huge-" then
+  else if c.fam == "degen-map-loop" || c.fam == "degen-cat-loop" then some "deadline"
+  else if c.fam.startsWith "huge-" || c.fam.startsWith "degen-" || c.fam.startsWith "wrap-" then
     -- free memory is somewhere between half the limit and the limit: predict only when that does not matter
     let lo := hugeModel c.fam c.n (128 * 1024 * 1024)
     let hi := hugeModel c.fam c.n (256 * 1024 * 1024)
@@ -127,6 +135,11 @@ def resOk (c : Case) (res : String) : Bool :=
   else if c.fam.startsWith "huge-" then
     -- refused (guard or error) or, when produced, not larger than the whole budget
     res == "mem" || res == "err" || res == "deadline" || (res == "ok" && resultBytes c.fam c.n < memLimitKB * 1024)
+  else if c.fam == "degen-map-loop" || c.fam == "degen-cat-loop" then res == "deadline"
+  -- an empty operand times anything is empty; a refusal is acceptable too, a stray Go panic is not
+  else if c.fam.startsWith "degen-" then res == "ok" || res == "err" || res == "mem"
+  -- a product that does not fit an int can only be refused
+  else if c.fam.startsWith "wrap-" then res == "err" || res == "mem"
   else if c.fam.startsWith "grow-" then res == "mem" || res == "err" || res == "deadline"
   else if c.fam.startsWith "nest-" then res == "ok" || res == "depth" || res == "err" || res == "deadline" || res == "parse"
   else if c.fam.startsWith "dag-" then res == "ok" || res == "deadline" || res == "mem" || res == "err"
